@@ -76,6 +76,9 @@ def r01_10_tree_untouched(ctx, rid='R01.10'):
             if not takes_node:
                 continue
             ok = any(f.cfg.dominates(f.nid(c), f.nid(call)) and f.nid(c) != f.nid(call) for c in cc)
+            if not ok:
+                # ... or, on the paths that avoid the check, the node is a scalar made right here (nothing composed, no alias)
+                ok = f.cfg.must_pass(f.cfg.entry, f.nid(call), {f.nid(c) for c in cc} | S.fresh_scalar_assignments(f, 'node'))
             r.check(ok, '%s: %s(node, ..) runs after the cycle check' % (name, cn), f.key('after-cycle-check:%s' % cn), f.loc(call),
                     '%s passes the composed tree to %s before __check_no_cycles has run: a recursive walk over a self-referential '
                     'alias does not terminate (RecursionError instead of RecognitionError)' % (name, cn))
